@@ -112,6 +112,10 @@ def run_case(case: Dict[str, Any], ctx) -> None:
             ctx.violation(key("input-modified"), f"input tensor modified: {fr.mutated}", cfg=cfg)
         if fr.scale_problems:
             ctx.violation(key("scale-primitive:" + fr.scale_problems[0]), str(fr.scale_problems[:3]), cfg=cfg)
+        if fr.u_nonfinite and fr.out_r.numel() and float(fr.out_r.detach().abs().max()) > torch.finfo(fr.out_r.dtype).max / 16:
+            ctx.count("excluded:reference-output-near-the-overflow-threshold")
+            ctx.skip("reference output near the dtype's overflow threshold")
+            return
         if fr.u_nonfinite:
             ctx.violation(key("nonfinite"), "library output non-finite where the reference is finite", cfg=cfg)
             return
